@@ -259,20 +259,22 @@ HTTP_EQUIV = ["Content-Type", "content-type", "CONTENT-TYPE", "Content-type"]
 
 
 def content_value(p):
-    return p["mime"] + p["before"] + ";" + p["w0"] + p["key"] + p["w1"] + "=" + p["w2"] + p["old"] + p["after"]
+    return p["mime"] + p["before"] + p.get("sep", ";") + p["w0"] + p["key"] + p["w1"] + "=" + p["w2"] + p["old"] + p["after"]
 
 
 def content_expected(p, e, pyspec):
-    """the property statement on the structure: only the charset value changes; the whole parameter goes for a Python-specific name"""
+    """the property statement on the structure: only the charset value changes; the whole parameter (with its `;`, or from
+    the start of its line) goes for a Python-specific name"""
+    sep = p.get("sep", ";")
     if pyspec:
-        return p["mime"] + p["before"] + p["after"]
-    return p["mime"] + p["before"] + ";" + p["w0"] + p["key"] + p["w1"] + "=" + p["w2"] + e + p["after"]
+        return p["mime"] + p["before"] + ("" if sep == ";" else sep) + p["after"]
+    return p["mime"] + p["before"] + sep + p["w0"] + p["key"] + p["w1"] + "=" + p["w2"] + e + p["after"]
 
 
 def rand_content_decl(r):
     """the parts of a content value; every spelling is one that the input-side detector (dammit: case-insensitive, white
     space around `=`) reads as a declaration"""
-    return dict(mime=r.choice(MIMES), before=r.choice(["", "", "", "; x=y", ";a=b"]), w0=r.choice(["", " ", " ", "  ", "\n", "\n "]),
+    return dict(mime=r.choice(MIMES), sep=r.choice([";", ";", ";", ";", "\n"]), before=r.choice(["", "", "", "; x=y", ";a=b"]), w0=r.choice(["", " ", " ", "  ", "\n", "\n "]),
                 key=r.choice(KEY_CASES), w1=r.choice(WS_EQ), w2=r.choice(WS_EQ), old=r.choice(OLD_NAMES),
                 after=r.choice(["", "", "", "; x=y", ";q", ";"]))
 
@@ -461,6 +463,11 @@ def check_encode_string(ctx, batch, enc, s, stream):
         return
     ref = f.xcr_ref(s)
     lawful = all(f.lawful(ch) for ch in s)
+    if lawful:
+        try:
+            lawful = ref.encode(enc).decode(enc) == ref
+        except UnicodeError:
+            lawful = False
     if enc in SINGLE_BYTE:
         batch.ask(stream, f"enc sb:{tok(enc)} x {tok(s)}", "B:" + btok(out), case, want="B:" + btok(ref.encode(enc)))
         try:
@@ -538,7 +545,7 @@ def stream_subst(ctx, batch):
     for key in ["charset", "CHARSET", "Charset", "cHaRsEt"]:
         for w1 in ["", " ", "\t "]:
             for w2 in ["", " ", "  "]:
-                for lead in ["text/html; ", "text/html;", "text/html;\n", "", "a=b;c=d; "]:
+                for lead in ["text/html; ", "text/html;", "text/html;\n", "", "a=b;c=d; ", "text/html\n", "text/html\n  "]:
                     for old, after in [("utf8", ""), ("x", "; y=z"), ("", ""), ("iso-8859-1", ";")]:
                         head = lead + key + w1 + "=" + w2
                         orig = head + old + after
@@ -547,10 +554,12 @@ def stream_subst(ctx, batch):
                         check_subst(ctx, batch, orig, "koi8-r", head + "koi8-r" + after, "subst-grid", sp)
                         if lead.rstrip().endswith(";"):
                             gone = lead.rstrip()[:-1] + after
+                        elif "\n" in lead:
+                            gone = lead[: lead.index("\n") + 1] + after   # the match starts at the line start
                         else:
                             gone = lead + after
                         check_subst(ctx, batch, orig, "idna", gone, "subst-grid", sp)
-    ctx.exhaustive_parts.append("CHARSET_RE.sub: the grid of key case x white space around '=' x lead-in x value/tail (720 declarations x 2 targets)")
+    ctx.exhaustive_parts.append("CHARSET_RE.sub: the grid of key case x white space around '=' x lead-in x value/tail (1008 declarations x 2 targets)")
     for i in range(ctx.n(2000, 12000)):
         parts = rand_content_decl(r)
         e = r.choice(targets + PROP_PYTHON_SPECIFIC) if r.random() < 0.7 else r.choice(ENCODINGS)
@@ -680,19 +689,31 @@ def check_doc(ctx, batch, recipe, enc, entry, stream):
     if not isinstance(out, bytes):
         viol(f"{entry}({enc!r}) did not return bytes", observed=type(out).__name__)
         return found
+    # unencodable characters appear as decimal references, everything else as rendered
+    ref = f.xcr_ref(rendered_ref(soup, entry, enc))
+    # the codec's round-trip law on the very string that is encoded (strict, no bs4 involved): CPython's stateful codecs
+    # (hz: `~` escaping lost after mode switches) can fail it on a long string although every character passes alone
+    try:
+        law_ok = ref.encode(enc).decode(enc) == ref
+    except UnicodeError:
+        law_ok = False
+    if not law_ok:
+        ctx.count("excluded:codec-law-fails-on-document:" + f.norm)
+        ctx.case(None)
+        return found
     try:
         back = out.decode(enc)
     except UnicodeError as ex:
         viol("the bytes do not decode in the target encoding", observed=repr(ex)[:300])
         return found
-    # unencodable characters appear as decimal references, everything else as rendered
-    ref = f.xcr_ref(rendered_ref(soup, entry, enc))
     if back != ref:
         viol("decoded output is not the rendering with unencodable characters as &#N;", expected=ref[:400], observed=back[:400])
     # (b) re-parse recovers every text and attribute value
-    again = BS(out, "html.parser", from_encoding=enc)
+    # (the decoded string is parsed: handing the bytes to the constructor would add the input side's BOM sniffing, which
+    # misreads e.g. BOM-less UTF-32-LE output that happens to begin with U+1FFFE; re-detection from bytes is (d))
+    again = BS(back, "html.parser")
     nontrivial = False
-    if entry != "encode_contents_body" or True:
+    if True:
         for it in walk_items(recipe["items"]):
             t2 = again.find(id=it["id"])
             if t2 is None:
